@@ -64,6 +64,10 @@ func parseCfg(lines []string, def HarnessCfg) HarnessCfg {
 	for k, v := range def.Abstract {
 		cfg.Abstract[k] = v
 	}
+	cfg.Stubs = map[string]string{}
+	for k, v := range def.Stubs {
+		cfg.Stubs[k] = v
+	}
 	cfg.Opts = map[string]string{}
 	for k, v := range def.Opts {
 		cfg.Opts[k] = v
@@ -92,8 +96,14 @@ func parseCfg(lines []string, def HarnessCfg) HarnessCfg {
 				cfg.AllowPanic = true
 			case "timeout":
 				cfg.TimeoutMs, _ = strconv.Atoi(v)
-			case "feasible":
+			case "feasible", "prune":
 				cfg.Feasible = true
+			case "stub":
+				// stub=full.Name:harnessFunc
+				i := strings.LastIndex(v, ":")
+				if i > 0 {
+					cfg.Stubs[v[:i]] = v[i+1:]
+				}
 			default:
 				cfg.Opts[k] = v
 			}
@@ -268,6 +278,8 @@ func runHarness(prog *ssa.Program, fn *ssa.Function, cfg HarnessCfg, solverKind,
 	}
 	c := cfg
 	ex := NewExec(prog, &c)
+	ex.harnessPkg = fn.Pkg
+	ex.ts.BvUF = cfg.Opts["bitops"] != "bv"
 	chain := solverKind
 	if c, ok := cfg.Opts["solvers"]; ok {
 		chain = c
